@@ -243,6 +243,7 @@ def run(tier, seed, only=None):
                                             assume=ma + rap_assume, meta={"family": "twist acts about the reference axis", "idx": [0, j, k]}))
                 run_obligations(rep, "Rotate effect[%s]" % cn, obs, timeout, levels=(1, 2), fixed=fixed, family=lambda ob: "Rotate: " + ob.meta["family"])
     group_chain(rep, tier, timeout)
+    group_defaults(rep, tier, timeout)
     splines(rep)
     rep.bounds = {"meshes": [c[0] for c in cfgs], "ref_axis_pos": "symbolic in [0,1]"}
     rep.assumptions = ["real arithmetic", "input meshes have chordwise lines at constant y, strictly increasing y, the symmetric root on y = 0 at the last index "
@@ -394,3 +395,65 @@ def replay_file(path):
     print("recorded counterexample: %s" % spec.get("what"))
     print("VIOLATION property=%s replay=%s" % (PID, path))
     return 1
+
+
+def group_defaults(rep, tier, timeout):
+    """The real GeometryMesh group of a surface dictionary *without* any design-variable key, executed through its own
+    wiring with the values its setup() gives the unpromoted inputs (in particular the default span it derives from the
+    mesh): the output mesh is the input mesh.  x and z of the mesh are symbolic, y is the concrete y of the option mesh
+    (the group computes its default span from that)."""
+    import warnings
+
+    import openmdao.api as om
+    from openaerostruct.geometry.geometry_mesh import GeometryMesh
+    from symoas import pipe
+
+    cfgs = [("symL_2x3 root on the symmetry plane", 2, 3, True, 0.0, None), ("symL_2x3 root off the symmetry plane", 2, 3, True, -0.75, None),
+            ("full_2x3", 2, 3, False, 0.0, None), ("symL_3x3 root off the plane, ref axis 0.5", 3, 3, True, -1.5, 0.5)]
+    if tier == "thorough":
+        cfgs += [("full_3x5 shifted", 3, 5, False, 2.0, None), ("symR_2x3 root off the plane", 2, 3, True, 0.5, None)]
+    for (cn, nx, ny, symm, yshift, rapv) in cfgs:
+        right = cn.startswith("symR")
+        cm = K.rect_mesh(nx, ny, symm, right=right)
+        cm[:, :, 1] += yshift
+        over = {} if rapv is None else {"ref_axis_pos": rapv}
+        surf = K.surface_from_mesh(cm, symm, name="wing", **over)
+        for k in ("taper", "sweep", "dihedral", "span", "chord_cp", "twist_cp", "xshear_cp", "yshear_cp", "zshear_cp"):
+            surf.pop(k, None)
+        prob = om.Problem(reports=False)
+        prob.model.add_subsystem("g", GeometryMesh(surface=surf))
+        with warnings.catch_warnings():
+            warnings.simplefilter("ignore")
+            prob.setup()
+            prob.final_setup()
+        rep.encode(GeometryMesh)
+        m = np.empty((nx, ny, 3), dtype=object)
+        for i in range(nx):
+            for j in range(ny):
+                m[i, j, 0] = var("x[%d,%d]" % (i, j))
+                m[i, j, 1] = S(float(cm[i, j, 1]))
+                m[i, j, 2] = var("zs[%d]" % j)  # flat chords (dihedral allowed): the family without the known Rotate finding
+        GP = pipe.GroupPipe(prob)
+        GP.internal_defaults = True
+        tap = prob.model.g.taper
+        tap.options["mesh"] = m
+        try:
+            GP.run()
+        finally:
+            tap.options["mesh"] = cm
+        out = [v for k, v in GP.vals.items() if k.endswith("g.rotate.mesh")][0]
+        obs = idents("GeometryMesh(no design-variable keys)", out, m, meta={"family": "a surface without design-variable keys goes through the geometry group unchanged", "cfg": cn})
+
+        def rp(ob, env, surf=surf, cm=cm):
+            p2 = om.Problem(reports=False)
+            p2.model.add_subsystem("g", GeometryMesh(surface=surf))
+            with warnings.catch_warnings():
+                warnings.simplefilter("ignore")
+                p2.setup()
+                p2.run_model()
+            o = np.array(p2.get_val("g.mesh"), dtype=float)
+            d = float(np.abs(o - cm).max())
+            return d > 1e-9, "real GeometryMesh (%s): max |mesh_out - mesh_in| = %.6g at default values" % (ob.meta["cfg"], d)
+
+        run_obligations(rep, "real GeometryMesh without design-variable keys [%s]" % cn, obs, timeout, replay=rp,
+                        family=lambda ob: "GeometryMesh: " + ob.meta["family"])
